@@ -1,6 +1,7 @@
 package checks
 
 import (
+	"runtime"
 	"encoding/json"
 	"fmt"
 	"time"
@@ -164,12 +165,17 @@ func C02(tier string) int {
 // replaySOps re-executes a recorded SOp path linearly and re-evaluates the invariants.
 func replaySOps(raw json.RawMessage) int {
 	var rp struct {
-		Path []SOp `json:"path"`
+		Path  []SOp `json:"path"`
+		Procs int   `json:"gomaxprocs"`
 	}
 	if err := json.Unmarshal(raw, &rp); err != nil {
 		fmt.Println(err)
 		return 2
 	}
+	if rp.Procs > 0 {
+		runtime.GOMAXPROCS(rp.Procs)
+	}
+	InstallSigFaults()
 	w, err := NewSigWorker(3)
 	if err != nil {
 		fmt.Println(err)
